@@ -252,7 +252,7 @@ func (m *c20m) exp(e ast.Exp) {
 	case *ast.FuncDefExp:
 		for i := range x.ParList {
 			for j := 0; j < i; j++ {
-				if x.ParList[i] == x.ParList[j] {
+				if x.ParList[i] == x.ParList[j] && x.ParList[i] != "_" { // `_` is the conventional placeholder and may repeat
 					m.hit(13, x.Loc)
 				}
 			}
@@ -296,6 +296,8 @@ var c20templates = []string{
 	/* 19 */ "local r = \x01 == \"\x02\"\nlocal s = \"\x01\" ~= \x01\nlocal u = t.\x01 == \"t.\x01\"\nlocal w = \x01 or \"\x02\"\nlocal z = \"\x01\" == \"\x02\"\n",
 	// the pattern occurring twice in one left-nested chain (same start, different ends) is reported twice
 	/* 20 */ "local w = \x01 or true or true\nlocal x = \x01 and false and false\nlocal y = \x01 == 1\x1b5 == 2\x1b5\nlocal z = \x01 == \x01 == \x01\n",
+	// placeholders between duplicate parameters
+	/* 21 */ "function f(\x01, _, \x02) end\nlocal g = function(\x01, _, _, \x02) end\nlocal h = function(_, \x01, _) end\n",
 }
 
 func VerifRun_C20() {
